@@ -1,6 +1,7 @@
 package main
 
 import (
+	"bytes"
 	"fmt"
 	"math/big"
 
@@ -67,10 +68,14 @@ func qAt(p rlwe.Parameters, level int) *big.Int {
 type keyParams struct {
 	levelQ, levelP, base2 int
 	compressed            bool
+	// transport: 0 the key object is used as generated; 1 it is serialised (MarshalBinary) and read back
+	// into a new object (UnmarshalBinary) before use — a compressed key in its compressed form, then
+	// expanded; 2 the same through WriteTo / ReadFrom on a plain io.Reader (bytes.Buffer).
+	transport int
 }
 
 func (kp keyParams) String() string {
-	return fmt.Sprintf("LevelQ=%d LevelP=%d base2=%d compressed=%v", kp.levelQ, kp.levelP, kp.base2, kp.compressed)
+	return fmt.Sprintf("LevelQ=%d LevelP=%d base2=%d compressed=%v transport=%d", kp.levelQ, kp.levelP, kp.base2, kp.compressed, kp.transport)
 }
 
 func (kp *keyParams) evk() rlwe.EvaluationKeyParameters {
@@ -88,6 +93,8 @@ func chooseKeyParams(c *engine.Chooser, p rlwe.Parameters, freeP bool) (kp keyPa
 	}
 	kp.base2 = base2Alphabet[c.Choose(len(base2Alphabet), "BaseTwoDecomposition")]
 	kp.compressed = c.Bool("Compressed")
+	kp.transport = c.Choose(3, "transport")
+	c.Cover("transport", []string{"none", "MarshalBinary", "WriteTo/ReadFrom"}[kp.transport])
 	c.Cover("base2", fmt.Sprint(kp.base2))
 	c.Cover("compressed", fmt.Sprint(kp.compressed))
 	c.Cover("LevelP", fmt.Sprint(kp.levelP))
@@ -108,6 +115,28 @@ func chooseKeyParams(c *engine.Chooser, p rlwe.Parameters, freeP bool) (kp keyPa
 // expand turns a compressed key into a usable one (alternating between an allocated and a provided
 // buffer); a no-op for an uncompressed key.
 func expand(p rlwe.Parameters, evk *rlwe.EvaluationKey, kp keyParams, withBuffer bool) error {
+	switch kp.transport {
+	case 1:
+		b, err := evk.MarshalBinary()
+		if err != nil {
+			return fmt.Errorf("MarshalBinary: %w", err)
+		}
+		n := new(rlwe.EvaluationKey)
+		if err := n.UnmarshalBinary(b); err != nil {
+			return fmt.Errorf("UnmarshalBinary: %w", err)
+		}
+		*evk = *n
+	case 2:
+		var buf bytes.Buffer
+		if _, err := evk.WriteTo(&buf); err != nil {
+			return fmt.Errorf("WriteTo: %w", err)
+		}
+		n := new(rlwe.EvaluationKey)
+		if _, err := n.ReadFrom(&buf); err != nil {
+			return fmt.Errorf("ReadFrom: %w", err)
+		}
+		*evk = *n
+	}
 	if !kp.compressed {
 		return nil
 	}
